@@ -128,7 +128,8 @@ package ice
 //@   site call setSelectedPair#1 assert C03 selects-only-nominated-valid: (hasUseCandidate || hasValidNomination) && s.agent.gNomAccepted && pair.state == pairSucceeded && arg1 == pair
 //@   site store nominateOnBindingSuccess#1 assert C03 C20 deferred-only-when-nominated: (hasUseCandidate || hasValidNomination) && s.agent.gNomAccepted && object == pair && value == true && pair.state != pairSucceeded
 //@   site store nominationValueOnBindingSuccess#1 assert C20 deferred-nomination-keeps-its-value: object == pair && value == nominationValue && pair.state != pairSucceeded && s.agent.gNomAccepted
-//@   site call sendBindingSuccess#2 assert C20 an-accepted-nomination-on-a-not-yet-valid-pair-is-remembered-with-its-latest-value: s.agent.gNomAccepted && (hasUseCandidate || hasValidNomination) && pair.state != pairSucceeded ==> pair.nominateOnBindingSuccess && pair.nominationValueOnBindingSuccess == nominationValue
+//@   site store nominationValueOnBindingSuccess#1 assert before C20 a-plain-nomination-never-erases-a-parked-value-that-is-still-the-latest-accepted: value == nil ==> pair.nominationValueOnBindingSuccess == nil || s.lastNomination == nil || *pair.nominationValueOnBindingSuccess != *s.lastNomination
+//@   site call sendBindingSuccess#2 assert C20 an-accepted-nomination-on-a-not-yet-valid-pair-is-remembered-with-its-latest-value: s.agent.gNomAccepted && (hasUseCandidate || hasValidNomination) && pair.state != pairSucceeded ==> pair.nominateOnBindingSuccess && (pair.nominationValueOnBindingSuccess == nominationValue || (nominationValue == nil && pair.nominationValueOnBindingSuccess != nil && s.lastNomination != nil && *pair.nominationValueOnBindingSuccess == *s.lastNomination))
 //@   site call sendBindingSuccess#1 assert C20 rejected-nomination-still-answered: !s.agent.gNomAccepted && arg1 == message
 //@   ghostvar pairAdded bool = false
 //@   site call addPair#1 ghost pairAdded := true
